@@ -334,11 +334,21 @@ def fam_fused_real(rng, n):
     return fam
 
 
+def fam_pipeline(rng, n):
+    """the arg-max primitives inside lcm's own jitted simulation pipeline: the utility array is
+    produced by fused upstream operations (interpolation, nested vmaps); the reported choices must
+    attain the reported maximum (judged by the Spec as in C02)"""
+    import e2e
+    feats = [{"two_cont_choices"}, {"two_cont_choices", "constraint"}, {"mixed_discrete_choices", "filter"}, set()]
+    fam, _ = e2e.fam_simulate(rng, n, judge=("C02",), name="pipeline_argmax", features=feats, agents=(3, 8), targets=False)
+    return fam
+
+
 def run(tier, seed):
     rng = random.Random(seed * 7919 + 18)
     k = 1 if tier == "quick" else 20
     return [fam_argmax(rng, 360 * k), fam_segment(rng, 180 * k), fam_reduce(rng, 150 * k),
-            fam_fused_real(rng, 60 * k)]
+            fam_fused_real(rng, 60 * k), fam_pipeline(rng, 12 * k)]
 
 
 def matches_signature(entry, item):
@@ -346,6 +356,10 @@ def matches_signature(entry, item):
 
 
 def replay_known(entry):
+    case = entry.get("replay") or {}
+    if case.get("fn") == "simulate":
+        from props import _sim
+        return bool(_sim.judge_case(case, ("C02", "C12")))
     return False
 
 
